@@ -100,7 +100,7 @@ func (c *Ctx) socketLifecycleHelper(cc *ssa.CallCommon) bool {
 	a := c.A
 	derived := map[ssa.Value]bool{}
 	for i, arg := range cc.Args {
-		if i < len(callee.Params) && (c.derivesFromField(arg, a.IO) || c.derivesFromField(arg, a.Sock)) {
+		if i < len(callee.Params) && (c.derivesFromIO(arg) || c.derivesFromField(arg, a.Sock)) {
 			derived[callee.Params[i]] = true
 		}
 	}
@@ -222,7 +222,7 @@ func (c *Ctx) writeCompleteRule(rule string, writeFn *ssa.Function) {
 // connection down, so a validation error on a line would end a healthy
 // connection.
 func (c *Ctx) writeErrorsRule(rule string) {
-	r, a := c.R, c.A
+	r := c.R
 	wf := c.Func(c.Client, "(*Conn).write")
 	if !r.Anchor(rule, "the write function of the send goroutine", wf != nil) {
 		return
@@ -242,11 +242,11 @@ func (c *Ctx) writeErrorsRule(rule string) {
 				case *ssa.Const:
 					okE, why = t.Value == nil, "nil"
 				case *ssa.Extract:
-					if call, isC := t.Tuple.(*ssa.Call); isC && len(call.Call.Args) > 0 && c.derivesFromField(call.Call.Args[0], a.IO) {
+					if call, isC := t.Tuple.(*ssa.Call); isC && len(call.Call.Args) > 0 && c.derivesFromIO(call.Call.Args[0]) {
 						okE, why = true, "error of "+calleeShort(&call.Call)
 					}
 				case *ssa.Call:
-					if len(t.Call.Args) > 0 && c.derivesFromField(t.Call.Args[0], a.IO) && !t.Call.IsInvoke() {
+					if len(t.Call.Args) > 0 && c.derivesFromIO(t.Call.Args[0]) && !t.Call.IsInvoke() {
 						okE, why = true, "error of "+calleeShort(&t.Call)
 					}
 					if via != nil && t == via {
@@ -382,7 +382,7 @@ func (c *Ctx) writerOnSocketRule(rule string) {
 				for _, ref := range *v.Referrers() {
 					switch t := ref.(type) {
 					case *ssa.Store:
-						if fv, _ := fieldOf(t.Addr); fv == a.IO {
+						if fv, _ := fieldOf(t.Addr); a.isIO(fv) {
 							feeds = true
 						}
 					case *ssa.Call:
@@ -1193,7 +1193,7 @@ func (c *Ctx) socketWritersRule(rule string, writeFn *ssa.Function) {
 			}
 			all = append(all, cc.Args...)
 			for _, arg := range all {
-				if c.derivesFromField(arg, a.IO) || c.derivesFromField(arg, a.Sock) {
+				if c.derivesFromIO(arg) || c.derivesFromField(arg, a.Sock) {
 					uses = true
 				}
 			}
